@@ -43,7 +43,8 @@ func main() {
 	r := lib.Init()
 	defer r.Close()
 	quiet()
-	r.Register("h", func(a []string) string { return runCase(a) })
+	r.Register("h", func(a []string) string { return runCase(a, false) })
+	r.Register("hl", func(a []string) string { return runCase(a, true) })
 	r.Register("k6", func(a []string) string { return runHuntCase(a) })
 	if r.Replayed() {
 		return
@@ -52,7 +53,7 @@ func main() {
 }
 
 // runCase executes the history twice and builds the observation.
-func runCase(a []string) string {
+func runCase(a []string, lazy bool) string {
 	if len(a) < 2 {
 		return "badargs"
 	}
@@ -69,8 +70,8 @@ func runCase(a []string) string {
 				done <- "panic"
 			}
 		}()
-		pa, fa := runHistory(ops, true, byte(fill), byte(stp))
-		_, fb := runHistory(ops, false, 0, 0)
+		pa, fa := runHistory(ops, true, byte(fill), byte(stp), lazy)
+		_, fb := runHistory(ops, false, 0, 0, lazy)
 		eq := "T"
 		if fa != fb {
 			eq = "F"
@@ -126,7 +127,7 @@ func parseOps(toks []string) ([]op, bool) {
 				o.keys = append(o.keys, lib.UnHex(h))
 			}
 			ops = append(ops, o)
-		case 'p', 'd', 'r', 'n', 'm', 'l', 'b', 's':
+		case 'p', 'd', 'r', 'n', 'm', 'l', 'b', 's', 'c', 'e', 'a', 'f':
 			if len(fs) < 2 {
 				return nil, false
 			}
